@@ -34,8 +34,8 @@ T = {
          "every catalogue operation with each operand independently a window in a junk parent; three-way oracle",
          "window column offsets are multiples of 64 (documented precondition); *_russian building blocks only on even word offsets; samples"),
  "C10": (1, "exploration", "property-based testing (rapidcheck): metamorphic relation fresh state vs. generated call history + heap patterns injected by an allocation wrapper, plus the model oracle",
-         "the block cache is primed with dirty blocks of exactly the shapes the final operation allocates; fresh heap blocks are pattern-filled and freed ones poisoned through -Wl,--wrap; output digests must agree between the fresh state and the state after the history, and - for overwriting operations - between junk / all-zero / all-one destination contents; every owned matrix must have zero padding (judged in every state; residue sweep over the transpose kernels)",
-         "results are compared through digests of canonical outputs; the wrapper sees only allocations made from the linked objects (not libpng/libc internals)"),
+         "the block cache is primed with dirty blocks of exactly the shapes the final operation allocates; fresh heap blocks are pattern-filled and freed ones poisoned through -Wl,--wrap; output digests (canonical outputs plus a raw digest of everything written, incl. full permutation arrays) must agree between the fresh state (zero-filled heap) and the state after the history (incl. the same operation on other data immediately before), and - for overwriting operations - between junk / all-zero / all-one destination contents and identity / other prior contents of supplied permutations; every owned matrix must have zero padding (judged in every state; residue sweep over the transpose kernels)",
+         "results are compared through digests; the wrapper sees only allocations made from the linked objects (not libpng/libc internals)"),
  "C11": (1, "exploration", "property-based testing (rapidcheck) under fatal ASan/UBSan with an allocator-balance invariant; forked-child fate checks for ill-dimensioned wrapper calls",
          "all catalogue cases with window placements at 8-mod-16 row starts in builds where any sanitizer report kills the process (the journal entry is the verdict); live allocation set must return to its pre-call value (thread-safe build: headers are heap blocks); every checked wrapper x operand with a wrong dimension must die in m4ri_die with operands bit-identical",
          "memory errors that neither ASan nor UBSan can see (e.g. reads of initialised padding inside an allocation) are outside this monitor; C09/C10 cover them semantically"),
